@@ -10,8 +10,9 @@ import (
 
 // gatherTerm: uint64(s[idx]) << c  (c may be 0: no shift)
 type gatherTerm struct {
-	Idx   ssa.Value
-	Shift int64
+	Idx      ssa.Value
+	ShiftVal ssa.Value // the shift amount when it is not a constant (a loop counter)
+	Shift    int64
 	Ins   ssa.Instruction
 	Cont  ssa.Value
 }
@@ -34,6 +35,8 @@ func gatherTerms(fn *ssa.Function, role string) []gatherTerm {
 				if bo, ok := ref.(*ssa.BinOp); ok && bo.Op == token.SHL && bo.X == ssa.Value(cv) {
 					if k, ok := constInt64(bo.Y); ok {
 						gt.Shift = k
+					} else {
+						gt.ShiftVal = stripConv(bo.Y)
 					}
 				}
 			}
@@ -102,7 +105,42 @@ func runC11(c *Ctx, w *World, r *Report) {
 		}
 		js := map[int64]int64{}
 		top := int64(-1)
+		loopPhis := map[ssa.Value]bool{}
 		for _, t := range terms {
+			// loop form: for shift := T; shift >= 0 && i < l; shift -= 8 { b |= uint64(s[i]) << shift; i++ } with
+			// i starting at frombit>>3: the same terms, byte k at shift T-8k for every k with T-8k >= 0
+			if t.ShiftVal != nil {
+				ivI, ok1 := fa.InductionOf(t.Idx, t.Ins.Block())
+				ivS, ok2 := fa.InductionOf(t.ShiftVal, t.Ins.Block())
+				if !ok1 || !ok2 || ivI.Phi.Block() != ivS.Phi.Block() {
+					bad = "a byte is gathered at a shift that is neither a constant nor a counter of the gathering loop"
+					continue
+				}
+				okFirst := len(ivI.FirstLin.T) == 1 && ivI.FirstLin.K == 0
+				for atom, coef := range ivI.FirstLin.T {
+					if coef != 1 || !startByte(fa.AtomValue(atom)) {
+						okFirst = false
+					}
+				}
+				bs := fa.BoundsAt(t.Ins.Block(), fa.Lin(t.ShiftVal))
+				switch {
+				case !okFirst || ivI.Step != 1:
+					bad = "the gathering loop does not visit the bytes (frombit>>3), (frombit>>3)+1, ..."
+				case !ivS.FirstConst || ivS.Step != -8 || ivS.First < 0 || ivS.First%8 != 0:
+					bad = fmt.Sprintf("the gathering loop's shift starts at %s and steps by %d: big-endian bytes need a multiple of 8 stepping by -8", ivS.FirstLin, ivS.Step)
+				case !(bs.HasLo && bs.Lo <= 0 && bs.Lo > -8):
+					bad = "the gathering loop does not run down to shift 0 exactly: " + bs.String()
+				default:
+					for k := int64(0); ivS.First-8*k >= 0; k++ {
+						js[k] = ivS.First - 8*k
+					}
+					if ivS.First > top {
+						top = ivS.First
+					}
+					loopPhis[ivI.Phi], loopPhis[ivS.Phi] = true, true
+				}
+				continue
+			}
 			// idx = (frombit>>3) + j : resolve through the i++ chain (phi-free: i, i+1, ...)
 			L := fa.Lin(t.Idx)
 			j := L.K
@@ -128,8 +166,36 @@ func runC11(c *Ctx, w *World, r *Report) {
 		{
 			var first *gatherTerm
 			for i := range terms {
-				if L := fa.Lin(terms[i].Idx); L.K == 0 {
+				if L := fa.Lin(terms[i].Idx); L.K == 0 && terms[i].ShiftVal == nil {
 					first = &terms[i]
+				}
+			}
+			// loop form: the term sits in the loop body; beyond what guards the loop itself only bounds on the two counters
+			for _, t := range terms {
+				if t.ShiftVal == nil {
+					continue
+				}
+				base := map[*ssa.If]bool{}
+				if iv, ok := fa.InductionOf(t.ShiftVal, t.Ins.Block()); ok {
+					for _, cd := range fa.Conds(iv.Phi.Block()) {
+						base[cd.If] = true
+					}
+				}
+				for _, cd := range fa.Conds(t.Ins.Block()) {
+					if base[cd.If] {
+						continue
+					}
+					okCond := false
+					if D, _, ok := fa.CondRel(cd); ok {
+						for atom := range D.T {
+							if loopPhis[fa.AtomValue(atom)] {
+								okCond = true
+							}
+						}
+					}
+					if !okCond && bad == "" {
+						bad = fmt.Sprintf("the byte gathered at %s additionally depends on the branch at %s, which is not a bound on the loop's counters: a byte inside the window can be left out", w.InstrPos(t.Ins), w.InstrPos(cd.If))
+					}
 				}
 			}
 			if first != nil {
@@ -417,7 +483,7 @@ func runC11(c *Ctx, w *World, r *Report) {
 							okPath = true
 						}
 						// first iteration: the loop counter equals its first value (no predecessor exists)
-						if bo, ok := cd.V.(*ssa.BinOp); ok && bo.Op == token.EQL && cd.Pol {
+						if bo, ok := cd.V.(*ssa.BinOp); ok && (bo.Op == token.EQL && cd.Pol || bo.Op == token.NEQ && !cd.Pol) {
 							if k, ok := constInt64(stripConv(bo.Y)); ok {
 								if iv, ok := fa.InductionOf(bo.X, call.Block()); ok && iv.FirstConst && iv.First == k {
 									okPath = true
